@@ -1174,4 +1174,584 @@ Section PdrImplProofs.
       + destruct Hu as (s & Hs). destruct (Hnb eq_refl s) as [E _]. congruence.
       + destruct Hu as (s & _ & Hs). destruct (Hnb eq_refl s) as [_ E]. congruence.
   Qed.
+
+  (** ** definiteness: under a truthful solver that never answers "unknown" the model neither
+      returns an error nor panics (every [Rust] panic / [Err] path of pdr.rs is unreachable) *)
+  Definition total_solver : Prop := forall n q, solve n q <> AUnknown lit St.
+
+  Definition good {A} (r : res A) : Prop :=
+    match r with Ok _ => True | Fuel => True | Err _ => False | Panic _ => False end.
+
+  Lemma filter_len {A} (f : A -> bool) l : length (filter f l) <= length l.
+  Proof. induction l as [| a l IH]; cbn; [lia |]. destruct (f a); cbn; lia. Qed.
+
+  Lemma ch_partition (f : lit -> bool) c s :
+    ch (filter f c ++ filter (fun l => negb (f l)) c) s = ch c s.
+  Proof.
+    rewrite ch_app. unfold ch. induction c as [| a c IH]; [reflexivity |]. cbn [filter forallb].
+    destruct (f a); cbn [negb filter forallb]; rewrite <- IH;
+      destruct (lit_holds a s), (forallb (fun l => lit_holds l s) (filter f c)),
+        (forallb (fun l => lit_holds l s) (filter (fun l => negb (f l)) c)); reflexivity.
+  Qed.
+
+  Lemma init_sat_post k gen lm core m :
+    q_model (init_query lit k gen lm core) m -> ~ excl_post (gen ++ lm).
+  Proof.
+    intros Hm Hex. unfold q_model, init_query in Hm. cbn [q_from q_bad q_fixed q_sel q_neg] in Hm.
+    destruct Hm as (_ & _ & s' & Hs & Hc). rewrite (Hex m s' Hs) in Hc. discriminate.
+  Qed.
+
+  Lemma fix_loop_ok fuel : forall st gen lm first,
+      total_solver -> excl_post (gen ++ lm) -> length lm < fuel ->
+      exists r, fix_loop lit lit_eqb St solve fuel st gen lm first = Ok r.
+  Proof.
+    induction fuel as [| fuel IH]; intros st gen lm first Htot Hex Hlen; [lia |].
+    cbn [fix_loop]. rewrite ask_spec.
+    pose proof (solver_ok (p_q lit St st) (init_query lit KGenFix gen lm true)) as Htr.
+    pose proof (Htot (p_q lit St st) (init_query lit KGenFix gen lm true)) as Hnu.
+    destruct (solve (p_q lit St st) (init_query lit KGenFix gen lm true)) as [m | core |]; cbn [truthful] in Htr.
+    - exfalso. now apply (init_sat_post _ _ _ _ _ Htr).
+    - destruct (Nat.eqb_spec (length (filter (fun l => lit_mem lit lit_eqb l core) lm)) (length lm)) as [E | E].
+      + now eexists.
+      + apply IH; [exact Htot | | pose proof (filter_len (fun l => lit_mem lit lit_eqb l core) lm); lia].
+        apply (init_query_unsat KGenFix gen lm core). exact Htr.
+    - now contradiction Hnu.
+  Qed.
+
+  Lemma fix_gen_cube_ok st gen rm :
+    total_solver -> excl_post gen \/ excl_post (gen ++ rm) ->
+    exists r, fix_gen_cube lit lit_eqb St solve st gen rm = Ok r.
+  Proof.
+    intros Htot Hex. unfold fix_gen_cube. rewrite ask_spec.
+    pose proof (solver_ok (p_q lit St st) (init_query lit KGenCheck gen [] false)) as Htr.
+    pose proof (Htot (p_q lit St st) (init_query lit KGenCheck gen [] false)) as Hnu.
+    destruct (solve (p_q lit St st) (init_query lit KGenCheck gen [] false)) as [m | core |]; cbn [truthful] in Htr.
+    - destruct Hex as [Hex | Hex].
+      + exfalso. apply (init_sat_post _ _ _ _ _ Htr). now rewrite app_nil_r.
+      + apply fix_loop_ok; [exact Htot | exact Hex | lia].
+    - now eexists.
+    - now contradiction Hnu.
+  Qed.
+
+  Lemma push_at_ok c k : forall fs, 1 <= k <= length fs -> exists fs', push_at lit k c fs = Some fs'.
+  Proof.
+    induction k as [| k IH]; intros fs Hk; [lia |].
+    destruct fs as [| f r]; [cbn in Hk; lia |]. destruct k as [| k'].
+    - now eexists.
+    - change (push_at lit (S (S k')) c (f :: r)) with
+        (match push_at lit (S k') c r with Some r' => Some (f :: r') | None => None end).
+      cbn [length] in Hk. destruct (IH r ltac:(lia)) as (r' & ->). now eexists.
+  Qed.
+
+  Lemma add_finite_ok st c k : 1 <= k <= frontier' st -> exists st', add_blocked_cube lit St st c (FFinite k) = Some st'.
+  Proof.
+    intros Hk. cbn [add_blocked_cube]. destruct (push_at_ok c k (p_frames lit St st) Hk) as (fs & ->). now eexists.
+  Qed.
+
+  Lemma rel_ind_ok st c k ext :
+    total_solver -> 1 <= k <= frontier' st -> (gen_on = true -> k = 1 \/ excl_post c) ->
+    exists r st', rel_ind lit lit_eqb St cube_of_state solve gen_on st c (FFinite k) ext = Ok (r, st') /\
+                  r <> RUnknown lit.
+  Proof.
+    intros Htot Hk Hgen.
+    destruct (rel_ind lit lit_eqb St cube_of_state solve gen_on st c (FFinite k) ext) as [[r st'] | e | n |] eqn:Er.
+    - exists r, st'. split; [reflexivity |]. intros ->.
+      (* RUnknown only comes from an unknown answer *)
+      unfold rel_ind in Er. destruct (decrement (FFinite k)) as [prev |]; [| discriminate Er].
+      destruct (from_of lit St st prev) as [from |]; [| discriminate Er]. rewrite ask_spec in Er.
+      match type of Er with context [solve ?n ?q] => pose proof (Htot n q) as Hnu; destruct (solve n q) as [m | core |] end.
+      + discriminate Er.
+      + destruct gen_on; [| discriminate Er].
+        match type of Er with context [fix_gen_cube ?a1 ?a2 ?a3 ?a4 ?a5 ?a6 ?a7] => destruct (fix_gen_cube a1 a2 a3 a4 a5 a6 a7) as [[fx st2] | e0 | n0 |] end; discriminate Er.
+      + now contradiction Hnu.
+    - (* an error can only come from fix_gen_cube or an unknown answer: excluded *)
+      exfalso. unfold rel_ind in Er.
+      destruct (decrement (FFinite k)) as [prev |] eqn:Ed; [| discriminate Er].
+      destruct (from_of lit St st prev) as [from |] eqn:Ef; [| discriminate Er]. rewrite ask_spec in Er.
+      set (st0 := new_acts lit St st (length c)) in *.
+      match type of Er with context [solve ?n ?q] => pose proof (solver_ok n q) as Htr; pose proof (Htot n q) as Hnu;
+                                                     set (qq := q) in *; destruct (solve n qq) as [m | core |] eqn:Ea end;
+        [discriminate Er | | discriminate Er].
+      destruct gen_on eqn:Eg; [| discriminate Er].
+      set (g := filter (fun l => lit_mem lit lit_eqb l core) c) in *.
+      set (rm := filter (fun l => negb (lit_mem lit lit_eqb l core)) c) in *.
+      destruct (fix_gen_cube_ok (asked st0 qq) g rm Htot) as (r & Hr); [| rewrite Hr in Er; destruct r; discriminate Er].
+      destruct (Hgen eq_refl) as [-> | Hex].
+      + left. cbn in Ed. inversion Ed; subst prev. cbn [from_of] in Ef. inversion Ef; subst from.
+        cbn [truthful] in Htr. intros s0 s' Hs. destruct (ch g s') eqn:E; [| reflexivity]. exfalso.
+        apply (Htr s0). unfold qq, restrict, q_model. cbn. split; [exact I |]. split; [destruct ext; exact I |].
+        exists s'. now split.
+      + right. intros s0 s' Hs. unfold g, rm. rewrite ch_partition. now apply (Hex s0 s').
+    - exfalso. unfold rel_ind in Er.
+      destruct (decrement (FFinite k)) as [prev |] eqn:Ed.
+      2:{ destruct k as [| [| k']]; [lia | discriminate Ed | discriminate Ed]. }
+      destruct (from_of lit St st prev) as [from |] eqn:Ef.
+      2:{ destruct k as [| [| k']]; [lia | cbn in Ed; inversion Ed; subst; discriminate Ef |].
+          cbn in Ed. inversion Ed; subst. cbn [from_of] in Ef. rewrite frontier_eq in Ef.
+          destruct (Nat.leb_spec (S k') (frontier' st)); [discriminate Ef | lia]. }
+      rewrite ask_spec in Er.
+      set (st0 := new_acts lit St st (length c)) in *.
+      match type of Er with context [solve ?n ?q] => pose proof (solver_ok n q) as Htr; pose proof (Htot n q) as Hnu;
+                                                     set (qq := q) in *; destruct (solve n qq) as [m | core |] eqn:Ea end;
+        [discriminate Er | | discriminate Er].
+      destruct gen_on eqn:Eg; [| discriminate Er].
+      set (g := filter (fun l => lit_mem lit lit_eqb l core) c) in *.
+      set (rm := filter (fun l => negb (lit_mem lit lit_eqb l core)) c) in *.
+      destruct (fix_gen_cube_ok (asked st0 qq) g rm Htot) as (r & Hr); [| rewrite Hr in Er; destruct r; discriminate Er].
+      destruct (Hgen eq_refl) as [-> | Hex].
+      + left. cbn in Ed. inversion Ed; subst prev. cbn [from_of] in Ef. inversion Ef; subst from.
+        cbn [truthful] in Htr. intros s0 s' Hs. destruct (ch g s') eqn:E; [| reflexivity]. exfalso.
+        apply (Htr s0). unfold qq, restrict, q_model. cbn. split; [exact I |]. split; [destruct ext; exact I |].
+        exists s'. now split.
+      + right. intros s0 s' Hs. unfold g, rm. rewrite ch_partition. now apply (Hex s0 s').
+    - (* the fuel of fix_gen_cube is computed and suffices *)
+      exfalso. unfold rel_ind in Er.
+      destruct (decrement (FFinite k)) as [prev |] eqn:Ed; [| discriminate Er].
+      destruct (from_of lit St st prev) as [from |] eqn:Ef; [| discriminate Er]. rewrite ask_spec in Er.
+      set (st0 := new_acts lit St st (length c)) in *.
+      match type of Er with context [solve ?n ?q] => pose proof (solver_ok n q) as Htr; pose proof (Htot n q) as Hnu;
+                                                     set (qq := q) in *; destruct (solve n qq) as [m | core |] eqn:Ea end;
+        [discriminate Er | | discriminate Er].
+      destruct gen_on eqn:Eg; [| discriminate Er].
+      set (g := filter (fun l => lit_mem lit lit_eqb l core) c) in *.
+      set (rm := filter (fun l => negb (lit_mem lit lit_eqb l core)) c) in *.
+      destruct (fix_gen_cube_ok (asked st0 qq) g rm Htot) as (r & Hr); [| rewrite Hr in Er; destruct r; discriminate Er].
+      destruct (Hgen eq_refl) as [-> | Hex].
+      + left. cbn in Ed. inversion Ed; subst prev. cbn [from_of] in Ef. inversion Ef; subst from.
+        cbn [truthful] in Htr. intros s0 s' Hs. destruct (ch g s') eqn:E; [| reflexivity]. exfalso.
+        apply (Htr s0). unfold qq, restrict, q_model. cbn. split; [exact I |]. split; [destruct ext; exact I |].
+        exists s'. now split.
+      + right. intros s0 s' Hs. unfold g, rm. rewrite ch_partition. now apply (Hex s0 s').
+  Qed.
+
+  Lemma push_loop_ok fuel : forall st cand t,
+      total_solver -> 2 <= t -> t <= S (frontier' st) -> (gen_on = true -> excl_post cand) ->
+      S (frontier' st) - t < fuel ->
+      exists r, push_loop lit lit_eqb St cube_of_state solve gen_on fuel st cand (FFinite t) = Ok r.
+  Proof.
+    induction fuel as [| fuel IH]; intros st cand t Htot Ht HtS Hgen Hfuel; [lia |].
+    cbn [push_loop]. destruct (fid_le (FFinite t) (frontier_id lit St st)) eqn:Ele; [| now eexists].
+    apply (fid_le_frontier st t ltac:(lia)) in Ele.
+    destruct (rel_ind_ok st cand t true Htot ltac:(lia) ltac:(intros Hg; right; now apply Hgen)) as (r & st1 & Hr & Hnu).
+    rewrite Hr. destruct (rel_ind_spec _ _ _ _ _ _ Hr) as (_ & _ & Hsem & _).
+    destruct r as [p | og |]; [now eexists | | now contradiction Hnu].
+    cbn [increment]. apply IH; try assumption; try lia; rewrite (sem_eq_frontier st st1 Hsem); lia.
+  Qed.
+
+  Lemma block_loop_good fuel : forall st work,
+      total_solver -> pinv st -> book st -> Forall (obl_ok (frontier' st)) work ->
+      good (block_loop lit lit_eqb St cube_of_state solve gen_on fuel st work).
+  Proof.
+    induction fuel as [| fuel IH]; intros st work Htot Hinv Hbook Hwork; [exact I |].
+    cbn [block_loop].
+    destruct (pop_min lit work) as [[[c f] rest] |] eqn:Epop; [| exact I].
+    destruct (pop_min_spec work _ _ Epop) as [Hm Hrest].
+    pose proof Hwork as Hwork'. rewrite Forall_forall in Hwork'.
+    assert (Hrest_ok : Forall (obl_ok (frontier' st)) rest) by (apply Forall_forall; intros o Ho; apply Hwork'; now apply Hrest).
+    pose proof (Hwork' _ Hm) as Hobl.
+    destruct (is_init f) eqn:Ei; [exact I |].
+    assert (Hf : exists j, f = FFinite j /\ 1 <= j <= frontier' st).
+    { destruct Hobl as (s & _ & Hs). cbn [snd] in Hs. destruct f as [| j |]; [discriminate Ei | | destruct Hs].
+      exists j. split; [reflexivity | apply Hs]. }
+    destruct Hf as (j & -> & Hj).
+    destruct (rel_ind_ok st c j true Htot Hj) as (r & st1 & Hr & Hnu).
+    { intros _. destruct (Nat.eq_dec j 1) as [-> | Hne]; [now left | right].
+      apply (obl_not_post st c j Hinv Hobl). lia. }
+    (* replay one step of the soundness argument to obtain the invariants of the next state *)
+    rewrite Hr. destruct (rel_ind_spec _ _ _ _ _ _ Hr) as (prev & Hd & Hsem & Hpost).
+    assert (HN1 : frontier' st1 = frontier' st) by apply (sem_eq_frontier st st1 Hsem).
+    destruct r as [p | og |]; [| | now contradiction Hnu].
+    - rewrite Hd.
+      (* the new obligation is fine: same reasoning as in [block_loop_spec]; obtained by running the
+         specification on a one-more-step continuation is not possible, so it is re-derived *)
+      apply IH; [exact Htot | now apply (sem_eq_pinv st) | now apply (sem_eq_book st) |].
+      rewrite HN1. constructor; [| constructor; [exact Hobl | exact Hrest_ok]].
+      cbn [rel_post] in Hpost. destruct Hpost as (m & s' & -> & Hprev & Hcs & _).
+      destruct Hobl as (s & Hc & Hobl). cbn [fst snd] in Hc, Hobl. subst c.
+      apply cube_state_unique in Hcs. subst s'.
+      exists m. split; [reflexivity |]. cbn [snd].
+      destruct (decrement_spec _ _ Hd) as [(He & ->) | (k & He & ->)]; inversion He; subst j; cbn [prev_ok] in Hprev.
+      + destruct Hobl as (Hj' & Hl). right. split; [lia |]. exists s. split; [exact Hprev |].
+        replace (pred (frontier' st)) with (frontier' st - 1) by lia. exact Hl.
+      + destruct Hobl as (Hj' & Hl). destruct Hprev as [_ Ht]. split; [lia |].
+        replace (frontier' st - S k) with (S (frontier' st - S (S k))) by lia. now apply (lb_step m s).
+    - set (cand := match og with Some g => g | None => c end) in *.
+      assert (Hex : excl_post cand).
+      { destruct (decrement_spec _ _ Hd) as [(He & ->) | (k & He & ->)]; inversion He; subst j.
+        - cbn [is_init negb andb rel_post] in Hpost. destruct Hpost as (_ & _ & Hun).
+          intros s0 s' Hs. apply (Hun s0 s'); [exact Hs | discriminate].
+        - cbn [rel_post] in Hpost. destruct Hpost as (_ & Hex & _). unfold cand. destruct og as [g |].
+          + apply Hex. discriminate.
+          + apply (obl_not_post st c (S (S k)) Hinv Hobl). lia. }
+      cbn [increment].
+      destruct (push_loop_ok (S (S (frontier lit St st1))) st1 cand (S j) Htot ltac:(lia) ltac:(rewrite HN1; lia)
+                             ltac:(intros _; exact Hex) ltac:(unfold frontier, frontier' in *; lia)) as ([tf' st2] & Hpush).
+      rewrite Hpush.
+      destruct (push_loop_spec _ _ _ _ _ _ Hpush ltac:(lia) ltac:(rewrite HN1; lia)) as (Hsem2 & t' & -> & Hle & HleN & _).
+      destruct t' as [| [| t'']]; try lia. cbn [decrement].
+      assert (HN2 : frontier' st2 = frontier' st) by (rewrite (sem_eq_frontier st1 st2 Hsem2); exact HN1).
+      destruct (add_finite_ok st2 cand (S t'') ltac:(rewrite HN2, <- HN1; lia)) as (st3 & Hadd).
+      rewrite Hadd.
+      (* invariants of st3: from the specification applied to a run that stops right after this step *)
+      assert (H3 : pinv st3 /\ book st3 /\ frontier' st3 = frontier' st).
+      { (* re-run the soundness step with the empty rest: use block_loop_spec on fuel 1 more is awkward;
+           derive directly as in block_loop_spec *)
+        assert (Hrc : rel_cond st j cand).
+        { destruct (decrement_spec _ _ Hd) as [(He & ->) | (k & He & ->)]; inversion He; subst j.
+          - intros Hc. lia.
+          - now apply rel_post_rel_cond. }
+        destruct (push_loop_spec _ _ _ _ _ _ Hpush ltac:(lia) ltac:(rewrite HN1; lia)) as (_ & t3 & Ht3 & _ & _ & Hrc2).
+        inversion Ht3; subst t3.
+        assert (Hsem02 : sem_eq st st2) by now apply (sem_eq_trans _ st1).
+        split; [| split].
+        - apply (add_finite_preserves st2 cand (S t'') st3); [now apply (sem_eq_pinv st) | exact Hadd | exact Hex |].
+          destruct (Nat.eq_dec t'' (pred j)) as [-> | Hne].
+          + replace (S (pred j)) with j by lia. now apply (sem_eq_rel_cond st).
+          + apply (sem_eq_rel_cond st1); [exact Hsem2 |]. apply (Hrc2 ltac:(lia)).
+        - apply (book_bookx st3 0). apply (add_finite_bookx st2 cand (S t'') st3 0 []); [| exact Hadd].
+          apply (book_bookx st2 0). now apply (sem_eq_book st).
+        - destruct (add_finite_spec _ _ _ _ Hadd) as (_ & HN3 & _). now rewrite HN3. }
+      destruct H3 as (Hinv3 & Hbook3 & HN3).
+      apply IH; [exact Htot | exact Hinv3 | exact Hbook3 | now rewrite HN3].
+  Qed.
+
+  (** one cube of [prop_cubes]: the invariants of the state that the rest of the loop starts from *)
+  Lemma prop_cubes_step id c r st rr st1 :
+    pinv st -> bookx st id (c :: r) -> (forall c', In c' (c :: r) -> In (FFinite id, c') (asserted st)) ->
+    1 <= id -> S id <= frontier' st ->
+    rel_ind lit lit_eqb St cube_of_state solve gen_on st c (FFinite (S id)) false = Ok (rr, st1) ->
+    let next_ok st2 := pinv st2 /\ bookx st2 id r /\ (forall c', In c' r -> In (FFinite id, c') (asserted st2)) /\
+                       frontier' st2 = frontier' st in
+    (forall og st2, rr = RUnsat lit og -> add_blocked_cube lit St st1 c (FFinite (S id)) = Some st2 -> next_ok st2) /\
+    ((forall og, rr <> RUnsat lit og) -> next_ok (keep_cube lit St st1 id c)) /\
+    1 <= S id <= frontier' st1.
+  Proof.
+    intros Hinv Hb Has Hid HidN Er next_ok.
+    destruct (rel_ind_spec _ _ _ _ _ _ Er) as (prev & Hd & Hsem & Hpost).
+    assert (Hprev : prev = FFinite id).
+    { destruct id as [| id']; [lia |]. cbn in Hd. now inversion Hd. }
+    subst prev. cbn [andb] in Hpost.
+    assert (HN1 : frontier' st1 = frontier' st) by apply (sem_eq_frontier st st1 Hsem).
+    assert (Hinv1 : pinv st1) by now apply (sem_eq_pinv st).
+    assert (Hb1 : bookx st1 id (c :: r)) by now apply (sem_eq_bookx st).
+    assert (Has1 : forall c', In c' (c :: r) -> In (FFinite id, c') (asserted st1)).
+    { intros c' Hc'. destruct Hsem as (_ & _ & Ha). rewrite Ha. now apply Has. }
+    split; [| split; [| lia]].
+    - intros og st2 -> Eadd. destruct (add_finite_spec _ _ _ _ Eadd) as (Ha2 & HN2 & _).
+      unfold next_ok. split; [| split; [| split]].
+      + apply (add_finite_preserves st1 c (S id) st2 Hinv1 Eadd).
+        * apply (iv_post st1 Hinv1 (FFinite id) c). apply Has1. now left.
+        * apply (sem_eq_rel_cond st st1 _ _ Hsem). intros _ s s' Hf _ Ht. cbn [pred] in Hf.
+          cbn [rel_post] in Hpost. destruct Hpost as (Hsub & _ & Hun).
+          destruct (ch c s') eqn:E; [| reflexivity].
+          assert (Hg : ch (match og with Some g => g | None => c end) s' = false).
+          { apply (Hun s s'); [split; assumption | discriminate]. }
+          rewrite (sub_cube_ch _ c s' Hsub E) in Hg. discriminate.
+      + apply (bookx_drop st2 id c r).
+        * now apply (add_finite_bookx st1 c (S id) st2).
+        * exists (FFinite (S id)). split; [rewrite Ha2; now left | cbn; apply Nat.leb_refl].
+      + intros c' Hc'. rewrite Ha2. right. apply Has1. now right.
+      + now rewrite HN2.
+    - intros _. destruct (set_frame_spec st1 id (fcubes st1 id ++ [c]) ltac:(lia)) as (Ha & HNk & _).
+      fold (keep_cube lit St st1 id c) in Ha, HNk. unfold next_ok. split; [| split; [| split]].
+      + now apply (pinv_same st1).
+      + apply bookx_keep; [exact Hinv1 | exact Hb1 | lia | apply Has1; now left].
+      + intros c' Hc'. rewrite Ha. apply Has1. now right.
+      + now rewrite HNk.
+  Qed.
+
+  Lemma prop_cubes_good id : forall cs st,
+      total_solver -> pinv st -> bookx st id cs -> (forall c, In c cs -> In (FFinite id, c) (asserted st)) ->
+      1 <= id -> S id <= frontier' st ->
+      good (prop_cubes lit lit_eqb St cube_of_state solve gen_on st id cs).
+  Proof.
+    induction cs as [| c r IH]; intros st Htot Hinv Hb Has Hid HidN; [exact I |].
+    cbn [prop_cubes].
+    destruct (rel_ind_ok st c (S id) false Htot ltac:(lia)) as (rr & st1 & Hr & Hnu).
+    { intros _. right. apply (iv_post st Hinv (FFinite id) c). apply Has. now left. }
+    rewrite Hr. destruct (prop_cubes_step id c r st rr st1 Hinv Hb Has Hid HidN Hr) as (Hun & Hkeep & Hlvl).
+    destruct rr as [p | og |]; [| | now contradiction Hnu].
+    - destruct Hkeep as (H1 & H2 & H3 & H4); [discriminate |]. apply IH; try assumption. now rewrite H4.
+    - destruct (add_finite_ok st1 c (S id) Hlvl) as (st2 & Hadd). rewrite Hadd.
+      destruct (Hun og st2 eq_refl Hadd) as (H1 & H2 & H3 & H4). apply IH; try assumption. now rewrite H4.
+  Qed.
+
+  Lemma to_inf_ok cs : forall st, exists st', to_inf lit St st cs = Some st'.
+  Proof.
+    induction cs as [| c r IH]; intros st; [now eexists |]. cbn [to_inf add_blocked_cube]. apply IH.
+  Qed.
+
+  Lemma cleanup_ok n : forall st iid, exists st', cleanup lit St n st iid = Some st'.
+  Proof.
+    induction n as [| n IH]; intros st iid; [now eexists |]. cbn [cleanup].
+    destruct (to_inf_ok (fcubes st iid) (set_frame lit St st iid [])) as (st1 & ->). apply IH.
+  Qed.
+
+  Lemma prop_frames_good n : forall st id,
+      total_solver -> pinv st -> book st -> 1 <= id -> id + n = frontier' st ->
+      good (prop_frames lit lit_eqb St cube_of_state solve gen_on n st id).
+  Proof.
+    induction n as [| n IH]; intros st id Htot Hinv Hb Hid HidN; [exact I |].
+    cbn [prop_frames].
+    destruct (set_frame_spec st id [] ltac:(lia)) as (Ha0 & HN0 & _).
+    assert (Hpre : pinv (set_frame lit St st id []) /\ bookx (set_frame lit St st id []) id (fcubes st id) /\
+                   (forall c, In c (fcubes st id) -> In (FFinite id, c) (asserted (set_frame lit St st id []))) /\
+                   S id <= frontier' (set_frame lit St st id [])).
+    { split; [now apply (pinv_same st) |]. split; [apply bookx_take; [exact Hinv | exact Hb | lia] |].
+      split; [intros c Hc; rewrite Ha0; apply (bk_in st Hb); [lia | exact Hc] | rewrite HN0; lia]. }
+    destruct Hpre as (P1 & P2 & P3 & P4).
+    pose proof (prop_cubes_good id (fcubes st id) _ Htot P1 P2 P3 Hid P4) as Hg.
+    destruct (prop_cubes lit lit_eqb St cube_of_state solve gen_on (set_frame lit St st id []) id (fcubes st id)) as [st1 | e | m |] eqn:Ep;
+      try exact Hg; try exact I.
+    destruct (prop_cubes_spec id _ _ _ P1 P2 P3 Hid P4 Ep) as (Hinv1 & Hb1 & HN1). apply book_bookx in Hb1.
+    destruct (fcubes st1 id) as [| c0 r0].
+    - destruct (cleanup_ok (frontier lit St st1 - id) st1 (S id)) as (st2 & ->). exact I.
+    - apply IH; try assumption; lia.
+  Qed.
+
+  Lemma prop_last_good N : forall cs st,
+      total_solver -> pinv st -> bookx st N cs -> (forall c, In c cs -> In (FFinite N, c) (asserted st)) ->
+      1 <= N -> N = frontier' st ->
+      good (prop_last lit St solve st N cs).
+  Proof.
+    induction cs as [| c r IH]; intros st Htot Hinv Hb Has HN1 HN; [exact I |].
+    (* run the specification on the two possible one-step continuations *)
+    cbn [prop_last]. rewrite ask_spec.
+    set (q := {| q_kind := KInf; q_frame := FInf; q_from := FromClauses lit (clauses_inf lit St st); q_bad := false;
+                 q_neg := Some c; q_fixed := c; q_sel := []; q_core := false |}).
+    pose proof (solver_ok (p_q lit St st) q) as Htr.
+    pose proof (asked_sem st q) as Hsem. set (st1 := asked st q) in *.
+    assert (HNa : frontier' st1 = frontier' st) by apply (sem_eq_frontier st st1 Hsem).
+    assert (Hinv1 : pinv st1) by now apply (sem_eq_pinv st).
+    assert (Hb1 : bookx st1 N (c :: r)) by now apply (sem_eq_bookx st).
+    assert (Has1 : forall c', In c' (c :: r) -> In (FFinite N, c') (asserted st1)).
+    { intros c' Hc'. destruct Hsem as (_ & _ & Ha). rewrite Ha. now apply Has. }
+    assert (Hkeep : good (prop_last lit St solve (keep_cube lit St st1 N c) N r)).
+    { destruct (set_frame_spec st1 N (fcubes st1 N ++ [c]) ltac:(lia)) as (Ha & HNk & _).
+      fold (keep_cube lit St st1 N c) in Ha, HNk. apply IH; try assumption.
+      - now apply (pinv_same st1).
+      - apply bookx_keep; [exact Hinv1 | exact Hb1 | lia | apply Has1; now left].
+      - intros c' Hc'. rewrite Ha. apply Has1. now right.
+      - rewrite HNk. lia. }
+    destruct (solve (p_q lit St st) q) as [m | core |] eqn:Ea; cbn [truthful] in Htr; [exact Hkeep | | exact Hkeep].
+    cbn [add_blocked_cube].
+    set (st2 := {| p_frames := p_frames lit St st1; p_inf := p_inf lit St st1 ++ [c];
+                   p_asserted := (FInf, c) :: asserted st1; p_next_act := p_next_act lit St st1;
+                   p_q := p_q lit St st1; p_log := EvBlock lit St FInf c :: p_log lit St st1 |}).
+    assert (Eadd : add_blocked_cube lit St st1 c FInf = Some st2) by reflexivity.
+    destruct (add_inf_spec _ _ _ Eadd) as (Ha2 & Hfr2).
+    assert (HN2 : frontier' st2 = frontier' st1) by (unfold frontier'; now rewrite Hfr2).
+    apply IH; try assumption.
+    - apply (add_inf_preserves st1 c st2 Hinv1 Eadd).
+      + apply (iv_post st1 Hinv1 (FFinite N) c). apply Has1. now left.
+      + intros s s' Hf Hc Ht. destruct (ch c s') eqn:E; [| reflexivity]. exfalso.
+        cbn [q_core q] in Htr. apply (Htr s). unfold q_model. cbn [q_from q_neg q_bad q_fixed q_sel q from_ok neg_ok].
+        split; [apply clauses_inf_Finf; now apply (sem_eq_Finf st st1) |]. split; [exact Hc |].
+        exists s'. split; [exact Ht | now rewrite app_nil_r].
+    - apply (bookx_drop st2 N c r).
+      + now apply (add_inf_bookx st1 c st2).
+      + exists FInf. split; [rewrite Ha2; now left | reflexivity].
+    - intros c' Hc'. rewrite Ha2. right. apply Has1. now right.
+  Qed.
+
+  Lemma propagate_good st :
+    total_solver -> pinv st -> book st -> 1 <= frontier' st ->
+    good (propagate_blocked_cubes lit lit_eqb St cube_of_state solve gen_on st).
+  Proof.
+    intros Htot Hinv Hb HN. unfold propagate_blocked_cubes. rewrite frontier_eq.
+    pose proof (prop_frames_good (pred (frontier' st)) st 1 Htot Hinv Hb ltac:(lia) ltac:(lia)) as Hg.
+    destruct (prop_frames lit lit_eqb St cube_of_state solve gen_on (pred (frontier' st)) st 1) as [[b1 st1] | e | n |] eqn:Ep;
+      try exact Hg; try exact I.
+    apply prop_frames_spec in Ep; [| exact Hinv | exact Hb | lia | lia].
+    destruct Ep as [_ Hf]. destruct b1; [exact I |].
+    destruct (Hf eq_refl) as (Hinv1 & Hb1 & HN1). rewrite <- HN1. rewrite <- HN1 in HN.
+    destruct (set_frame_spec st1 (frontier' st1) [] ltac:(lia)) as (Ha0 & HN0 & _).
+    assert (Hg2 : good (prop_last lit St solve (set_frame lit St st1 (frontier' st1) []) (frontier' st1) (fcubes st1 (frontier' st1)))).
+    { apply prop_last_good; try assumption.
+      - now apply (pinv_same st1).
+      - apply bookx_take; [exact Hinv1 | exact Hb1 | lia].
+      - intros c Hc. rewrite Ha0. apply (bk_in st1 Hb1); [lia | exact Hc].
+      - now rewrite HN0. }
+    destruct (prop_last lit St solve (set_frame lit St st1 (frontier' st1) []) (frontier' st1) (fcubes st1 (frontier' st1))); try exact Hg2; exact I.
+  Qed.
+
+  Lemma get_bad_cube_good st : total_solver -> good (get_bad_cube lit St cube_of_state solve st).
+  Proof.
+    intros Htot. unfold get_bad_cube.
+    assert (Hf : exists from, from_of lit St st (frontier_id lit St st) = Some from).
+    { unfold frontier_id. destruct (frontier lit St st) eqn:E; cbn [from_of]; [now eexists |].
+      rewrite E, Nat.leb_refl. now eexists. }
+    destruct Hf as (from & ->). rewrite ask_spec.
+    match goal with |- context [solve ?n ?q] => pose proof (Htot n q) as Hnu; destruct (solve n q) end; try exact I.
+    now contradiction Hnu.
+  Qed.
+
+  Lemma pdr_loop_good fuel bf : forall st,
+      total_solver -> pinv st -> book st ->
+      good (pdr_loop lit lit_eqb St cube_of_state W solve gen_on bmc_result fuel bf st).
+  Proof.
+    induction fuel as [| fuel IH]; intros st Htot Hinv Hb; [exact I |].
+    cbn [pdr_loop]. destruct (frontier lit St st <=? MAX_FRAMES); [| exact I].
+    pose proof (get_bad_cube_good st Htot) as Hg.
+    destruct (get_bad_cube lit St cube_of_state solve st) as [[ob st1] | e | n |] eqn:Eg; try exact Hg; try exact I.
+    destruct (get_bad_cube_spec _ _ _ Eg) as (Hsem & Hob).
+    assert (HN1 : frontier' st1 = frontier' st) by apply (sem_eq_frontier st st1 Hsem).
+    assert (Hinv1 : pinv st1) by now apply (sem_eq_pinv st).
+    assert (Hb1 : book st1) by now apply (sem_eq_book st).
+    destruct ob as [b |].
+    - destruct Hob as (m & -> & H0 & H1). unfold block_cube.
+      assert (Hwork : Forall (obl_ok (frontier' st1)) [(cube_of_state m, frontier_id lit St st1)]).
+      { constructor; [| constructor]. exists m. split; [reflexivity |]. cbn [snd].
+        unfold frontier_id. rewrite frontier_eq, HN1. destruct (frontier' st) as [| n] eqn:EN.
+        - left. split; [reflexivity | now apply H0].
+        - split; [lia |]. rewrite Nat.sub_diag. constructor. apply H1. lia. }
+      match goal with |- good (match ?X with _ => _ end) =>
+        pose proof (block_loop_good bf st1 _ Htot Hinv1 Hb1 Hwork : good X) as Hgb;
+        destruct X as [[ok st2] | e | n |] eqn:Eb end; try exact Hgb; try exact I.
+      apply block_loop_spec in Eb; [| exact Hinv1 | exact Hb1 | exact Hwork].
+      destruct Eb as (Hinv2 & Hb2 & _ & _). destruct ok; [now apply IH |]. destruct bmc_result; exact I.
+    - destruct Hob as (H0 & H1).
+      assert (Hinva : pinv (add_frame lit St st1)).
+      { apply add_frame_preserves; [exact Hinv1 | |].
+        - rewrite HN1. exact H0.
+        - rewrite HN1. intros HN s Hf. apply (H1 HN s). now apply (sem_eq_Fc st st1). }
+      assert (Hba : book (add_frame lit St st1)) by now apply add_frame_book.
+      assert (HNa : 1 <= frontier' (add_frame lit St st1)).
+      { unfold frontier', add_frame. cbn [p_frames]. rewrite app_length. cbn. lia. }
+      pose proof (propagate_good _ Htot Hinva Hba HNa) as Hgp.
+      destruct (propagate_blocked_cubes lit lit_eqb St cube_of_state solve gen_on (add_frame lit St st1)) as [[fx st2] | e | n |] eqn:Ep;
+        try exact Hgp; try exact I.
+      apply propagate_spec in Ep; [| exact Hinva | exact Hba | exact HNa].
+      destruct Ep as [_ Hf]. destruct fx; [exact I |].
+      destruct (Hf eq_refl) as (Hinv2 & Hb2 & _). now apply IH.
+  Qed.
+
+  (** never an error, never a panic: the result is a verdict (or the model's own fuel ran out) *)
+  Theorem pdr_model_definite fuel bf :
+    total_solver ->
+    good (pdr lit lit_eqb St cube_of_state W solve gen_on has_bads bmc_result fuel bf).
+  Proof.
+    intros Htot. unfold pdr. destruct has_bads; [| exact I].
+    apply pdr_loop_good; [exact Htot | apply init_state_pinv | apply init_state_book].
+  Qed.
 End PdrImplProofs.
+
+(** ** the statements quoted by Props/C10.v *)
+Section PdrModelTheorems.
+  Variable lit : Type.
+  Variable lit_eqb : lit -> lit -> bool.
+  Variable St : Type.
+  Variable cube_of_state : St -> list lit.
+  Variable W : Type.
+  Variable solve : nat -> query lit -> answer lit St.
+  Variable gen_on has_bads : bool.
+  Variable bmc_result : bmc_answer W.
+  Variable lit_holds : lit -> St -> bool.
+  Variable bad0 : St -> bool.
+  Variable step0 trans : St -> St -> bool.
+  Variable bad : St -> bool.
+
+  (** the hypotheses on the oracle and on the literals *)
+  Definition oracle_ok : Prop :=
+    (forall s s', ch lit St lit_holds (cube_of_state s) s' = true -> s' = s) /\
+    (forall n q, truthful lit lit_eqb St lit_holds bad0 step0 trans bad q (solve n q)) /\
+    (has_bads = false -> no_bads St bad0 bad).
+
+  Notation run fuel bf := (pdr lit lit_eqb St cube_of_state W solve gen_on has_bads bmc_result fuel bf).
+
+  Theorem pdr_model_success_sound fuel bf st' :
+    oracle_ok -> run fuel bf = Ok (VSuccess W, st') -> safe St bad0 step0 trans bad.
+  Proof.
+    intros (H1 & H2 & H3) H.
+    exact (pdr_model_sound lit lit_eqb St cube_of_state W solve gen_on has_bads bmc_result lit_holds bad0 step0 trans bad
+                           H1 H2 fuel bf _ _ H3 H).
+  Qed.
+
+  Theorem pdr_model_fail_real fuel bf w st' :
+    oracle_ok -> run fuel bf = Ok (VFail W w, st') ->
+    bmc_result = BmcFail W w /\ exists d, d <= MAX_FRAMES /\ unsafe_at St bad0 step0 trans bad d.
+  Proof.
+    intros (H1 & H2 & H3) H.
+    exact (pdr_model_sound lit lit_eqb St cube_of_state W solve gen_on has_bads bmc_result lit_holds bad0 step0 trans bad
+                           H1 H2 fuel bf _ _ H3 H).
+  Qed.
+
+  Theorem pdr_model_unknown_only fuel bf st' :
+    oracle_ok -> run fuel bf = Ok (VUnknown W, st') ->
+    MAX_FRAMES < length (p_frames lit St st') \/
+    (bmc_result = BmcOther W /\ exists d, d <= MAX_FRAMES /\ unsafe_at St bad0 step0 trans bad d).
+  Proof.
+    intros (H1 & H2 & H3) H.
+    exact (pdr_model_sound lit lit_eqb St cube_of_state W solve gen_on has_bads bmc_result lit_holds bad0 step0 trans bad
+                           H1 H2 fuel bf _ _ H3 H).
+  Qed.
+
+  Theorem pdr_model_no_error fuel bf :
+    oracle_ok -> (forall n q, solve n q <> AUnknown lit St) ->
+    match run fuel bf with Err _ | Panic _ => False | Ok _ | Fuel => True end.
+  Proof.
+    intros (H1 & H2 & _) Htot.
+    exact (pdr_model_definite lit lit_eqb St cube_of_state W solve gen_on has_bads bmc_result lit_holds bad0 step0 trans bad
+                              H1 H2 fuel bf Htot).
+  Qed.
+End PdrModelTheorems.
+
+(** ** the exhaustive-search oracle satisfies the oracle hypothesis *)
+Section EnumOracleProofs.
+  Variable lit : Type.
+  Variable lit_eqb : lit -> lit -> bool.
+  Variable St : Type.
+  Variable lit_holds : lit -> St -> bool.
+  Variable bad0 : St -> bool.
+  Variable step0 trans : St -> St -> bool.
+  Variable bad : St -> bool.
+  Variable states : list St.
+  Hypothesis states_all : forall s, In s states.
+  Hypothesis lit_eqb_refl : forall l, lit_eqb l l = true.
+
+  Lemma enum_ok_model q m :
+    enum_ok lit St lit_holds bad0 step0 trans bad states q m = true <->
+    q_model lit St lit_holds bad0 step0 trans bad q m.
+  Proof.
+    unfold enum_ok, q_model, from_ok, neg_ok. fold (ech lit St lit_holds).
+    change (ech lit St lit_holds) with (ch lit St lit_holds).
+    rewrite !andb_true_iff. split.
+    - intros ((Hf & Hn) & Hr). split; [| split].
+      + destruct (q_from lit q); [exact I |]. now apply negb_true_iff.
+      + destruct (q_neg lit q); [now apply negb_true_iff | exact I].
+      + destruct (q_from lit q), (q_bad lit q); try exact Hr;
+          apply existsb_exists in Hr; destruct Hr as (s' & _ & Hs); apply andb_true_iff in Hs; now exists s'.
+    - intros (Hf & Hn & Hr). split; [split |].
+      + destruct (q_from lit q); [reflexivity |]. now apply negb_true_iff.
+      + destruct (q_neg lit q); [now apply negb_true_iff | reflexivity].
+      + destruct (q_from lit q), (q_bad lit q); try exact Hr;
+          destruct Hr as (s' & H1 & H2); apply existsb_exists; exists s'; (split; [apply states_all | now rewrite H1, H2]).
+  Qed.
+
+  Lemma filter_mem_self (c : list lit) : filter (fun l => lit_mem lit lit_eqb l c) c = c.
+  Proof.
+    assert (H : forall c0 l, In l c0 -> lit_mem lit lit_eqb l c0 = true).
+    { intros c0 l Hl. unfold lit_mem. apply existsb_exists. exists l. split; [exact Hl | apply lit_eqb_refl]. }
+    assert (G : forall d, (forall l, In l d -> In l c) -> filter (fun l => lit_mem lit lit_eqb l c) d = d).
+    { induction d as [| a d IH]; intros Hd; [reflexivity |]. cbn [filter].
+      rewrite (H c a (Hd a (or_introl eq_refl))). f_equal. apply IH. intros l Hl. apply Hd. now right. }
+    apply G. auto.
+  Qed.
+
+  Theorem enum_solve_truthful n q :
+    truthful lit lit_eqb St lit_holds bad0 step0 trans bad q
+             (enum_solve lit St lit_holds bad0 step0 trans bad states n q).
+  Proof.
+    unfold enum_solve. destruct (find (enum_ok lit St lit_holds bad0 step0 trans bad states q) states) as [m |] eqn:Ef; cbn [truthful].
+    - apply find_some in Ef. now apply enum_ok_model.
+    - intros m Hm.
+      assert (Hq : q_model lit St lit_holds bad0 step0 trans bad q m).
+      { destruct (q_core lit q); [| exact Hm]. unfold restrict in Hm. rewrite filter_mem_self in Hm.
+        destruct q; exact Hm. }
+      apply enum_ok_model in Hq. pose proof (find_none _ _ Ef m (states_all m)) as Hn. congruence.
+  Qed.
+
+  Theorem enum_solve_total n q : enum_solve lit St lit_holds bad0 step0 trans bad states n q <> AUnknown lit St.
+  Proof. unfold enum_solve. destruct (find _ states); discriminate. Qed.
+End EnumOracleProofs.
+
